@@ -11,6 +11,7 @@ def result_dict(res, extra=None):
         "inconclusive": res.inconclusive,
         "samples": res.samples,
         "extra": extra or {},
+        "notes": {k: (sorted(v) if isinstance(v, (set, frozenset)) else v) for k, v in res.notes.items()},
     }
 
 
